@@ -48,3 +48,49 @@ pub fn bit_labels(shape: &[usize]) -> RefArray {
     assert!(shape.iter().product::<usize>() <= 52, "bit labels need <= 52 cells");
     RefArray::from_fn(shape, |f, _| (1u64 << f) as f64)
 }
+
+/// Writes `scs` in both formats through writers that accept 1, 7 and 64 bytes per call and implement
+/// nothing but `write` / `flush`, through a writer that reports "full" (`Ok(0)`) part-way, and - for
+/// the reading side - parses the npy bytes back through buffered readers of small capacities.
+/// Returns a description of the first discrepancy: what a library user gets must be what a `Vec`
+/// would have received, an error, or never a silent prefix.
+pub fn io_through_plain_streams(scs: &Scs, precision: usize) -> Option<String> {
+    use crate::seam::SeamWriter;
+    use sfs_core::spectrum::io::{write, Format};
+    use std::io::BufReader;
+    for (fname, format) in [("text", Format::Text), ("npy", Format::Npy)] {
+        let mut reference = Vec::new();
+        if let Err(e) = write::Builder::default().set_precision(precision).set_format(format).write(&mut reference, scs) {
+            return Some(format!("writing {fname} into a Vec failed: {e}"));
+        }
+        for max in [1usize, 7, 64] {
+            let mut w = SeamWriter::short(max);
+            match write::Builder::default().set_precision(precision).set_format(format).write(&mut w, scs) {
+                Ok(()) if w.out == reference => {}
+                Ok(()) => return Some(format!("{fname} through a writer accepting {max} bytes per call: Ok(()) with {} of {} bytes delivered", w.out.len(), reference.len())),
+                Err(e) => return Some(format!("{fname} through a writer accepting {max} bytes per call failed: {e}")),
+            }
+        }
+        // a writer that is full after k bytes (`Ok(0)`): success must not be reported
+        for at in [0usize, 1, reference.len() / 2, reference.len().saturating_sub(1)] {
+            if at >= reference.len() {
+                continue;
+            }
+            let mut w = SeamWriter::short(usize::MAX);
+            w.zero_at = Some(at);
+            if write::Builder::default().set_precision(precision).set_format(format).write(&mut w, scs).is_ok() {
+                return Some(format!("{fname} into a writer that is full after {at} of {} bytes: Ok(()) although only {} bytes were taken", reference.len(), w.out.len()));
+            }
+        }
+        if fname == "npy" {
+            for cap in [1usize, 3, 7, 8, 12, 20, 100, 127, 129] {
+                match sfs_core::Array::read_npy(BufReader::with_capacity(cap, &reference[..])) {
+                    Ok(a) if a.shape().to_vec() == scs.shape().to_vec() && a.as_slice().len() == scs.inner().as_slice().len() && a.as_slice().iter().zip(scs.inner().as_slice()).all(|(x, y)| x.to_bits() == y.to_bits()) => {}
+                    Ok(a) => return Some(format!("npy read back through a BufReader of capacity {cap}: shape {:?} with {} values", a.shape().to_vec(), a.as_slice().len())),
+                    Err(e) => return Some(format!("npy read back through a BufReader of capacity {cap} failed: {e}")),
+                }
+            }
+        }
+    }
+    None
+}
